@@ -8,8 +8,9 @@ ID=$1; V=$2; shift 2
 CHECKS=${@:-$ID}
 W=/tmp/seed/$ID; O=/tmp/seed/out${ROUND:+$ROUND}/$ID; D=/verif/seeded/${ID}_${ROUND:+r$ROUND}$V   # ROUND=2 selects the second round's deliverables
 mkdir -p $D
-cp $O/patch_$V.diff $D/patch.diff; cp $O/demo_$V.* $D/
-python3 - "$O/meta.json" "$V" "$D/meta.json" <<'PY'
+[ -f $D/patch.diff ] || cp $O/patch_$V.diff $D/patch.diff   # a stored patch (possibly re-based on later fixes) is kept
+cp $O/demo_$V.* $D/ 2>/dev/null
+[ -f $D/meta.json ] || python3 - "$O/meta.json" "$V" "$D/meta.json" <<'PY'
 import json,sys
 m=json.load(open(sys.argv[1]))
 v=[x for x in m.get('variants',[]) if x.get('name')==sys.argv[2]]
